@@ -164,9 +164,12 @@ class Gen:
             opts[opts.index("obs")] = "otel" if r.random() < 0.7 else "otelns"
             if r.random() < 0.4:
                 self.types.append(r.choice([0, 45]))      # event types that implement otel.SpanAttributer
+        otel_store = any(o in ("otel", "otelns") for o in opts) and any(o.startswith("store") for o in opts)
+        if otel_store and self.focus == "C20" and not pt and r.random() < 0.6:
+            pt = True; opts.append("ptimeout")      # appends that fail with the context's error under the OpenTelemetry adapter
         r.shuffle(opts)
         lines.append("opts " + " ".join(opts))
-        if any(o.startswith("store") for o in opts) and r.random() < (0.8 if self.focus == "C13" else 0.3):
+        if any(o.startswith("store") for o in opts) and r.random() < (0.8 if self.focus == "C13" or (otel_store and self.focus == "C20") else 0.3):
             lines.append("faults " + " ".join(str((2 if pt and r.random() < 0.3 else 1) if r.random() < 0.35 else 0) for _ in range(r.randint(1, 10))))
         for b in range(self.nbodies):
             leaf = b < 2
